@@ -55,6 +55,8 @@ AuxInit == [rem      |-> [d \in Devs |-> 0],          \* C06: operational time s
             cost     |-> [d \in Devs |-> 0],          \* C16: summed value of supplied parts at supply
             rev      |-> [d \in Devs |-> 0],          \* C16: summed value of received parts at receipt
             idle     |-> [d \in Devs |-> 0],          \* C08: since when the device has been idle (empty and operational)
+            idleLo   |-> [d \in Devs |-> 0],          \* C08: the earliest defensible reading of the same (see AuxNext)
+            idleMark |-> [d \in Devs |-> FALSE],      \* C08: idleLo was set during the current outage
             join     |-> <<>>,                        \* C17: routing history of each part when it joined its batch
             inSeq    |-> [d \in Devs |-> <<>>],       \* C17: leaf parts in arrival order
             outSeq   |-> [d \in Devs |-> <<>>],       \* C17: leaf parts in leaving order
@@ -118,6 +120,26 @@ AuxNext(aux, pre, ev, post) ==
                                          \* replacing a waiting device's connections restarts its waiting time (documented in the code)
                                          \/ (ScriptOn(ev, "rewire", d) /\ FreeDev(post, d) /\ Operational(post, d)) )
                  THEN post.now ELSE aux.idle[d]],
+     \* "Idle longest" has two defensible readings for an empty machine whose input is unblocked while it is down:
+     \* idle since that moment (it has been asking for a part since then - the code's waiting clock) or since its
+     \* restoration (only then could it take one).  idleLo keeps the earlier reading; both are accepted.
+     idleLo |-> [d \in Devs |->
+                 IF d \in Procs /\ pre.dev[d].down /\ post.dev[d].down /\ pre.dev[d].blocked /\ ~post.dev[d].blocked
+                    /\ FreeDev(post, d) /\ ~aux.idleMark[d]
+                 THEN post.now
+                 ELSE IF d \in Procs /\ pre.dev[d].down /\ ~post.dev[d].down /\ aux.idleMark[d] /\ FreeDev(post, d)
+                                    /\ FreeDev(pre, d) /\ ~ScriptOn(ev, "rewire", d)
+                 THEN aux.idleLo[d]
+                 ELSE IF d \in HoldDevs /\ ( (~FreeDev(pre, d) /\ FreeDev(post, d))
+                                         \/ (Occ(ev, "recv", d) # <<>> /\ FreeDev(post, d))
+                                         \/ (d \in Procs /\ pre.dev[d].down /\ ~post.dev[d].down)
+                                         \/ (ScriptOn(ev, "rewire", d) /\ FreeDev(post, d) /\ Operational(post, d)) )
+                 THEN post.now ELSE aux.idleLo[d]],
+     idleMark |-> [d \in Devs |->
+                 IF d \in Procs /\ post.dev[d].down
+                 THEN (IF ~pre.dev[d].down THEN FALSE
+                       ELSE aux.idleMark[d] \/ (pre.dev[d].blocked /\ ~post.dev[d].blocked /\ FreeDev(post, d)))
+                 ELSE FALSE],
      join |-> [p \in DOMAIN post.part |->
                  IF \E d \in Devs : Kind(d) = "batcher" /\ p \in JoinedAt(pre, post, d) THEN post.part[p].hist
                  ELSE IF p \in DOMAIN aux.join THEN aux.join[p] ELSE <<>>],
@@ -493,8 +515,10 @@ C08(pre, ev, post, aux) ==
                   /\ (Kind(u) = "buffer" \/ i = 1)) =>
                     \A y \in (direct \cup Behind(p)) \ ({x} \cup Earlier(i)) :
                        WouldTake(pre, y, p, 0) =>
-                           (aux.idle[x] < aux.idle[y]
-                            \/ (aux.idle[x] = aux.idle[y] /\ (x \in direct /\ y \in direct => Pos(x) < Pos(y)))))
+                           IF aux.idleLo[x] # aux.idle[x] \/ aux.idleLo[y] # aux.idle[y]
+                           THEN aux.idleLo[x] <= aux.idle[y]        \* some reading under which x has been idle at least as long
+                           ELSE (aux.idle[x] < aux.idle[y]
+                                 \/ (aux.idle[x] = aux.idle[y] /\ (x \in direct /\ y \in direct => Pos(x) < Pos(y)))))
 
 (***************************************************************************)
 (* C17  batching keeps order and exact batch sizes                         *)
@@ -590,16 +614,64 @@ C19(pre, ev, post, aux) ==
               /\ (ev.occ[i][1] = "sense" => i < Len(ev.occ) /\ ev.occ[i + 1] = [ev.occ[i] EXCEPT ![1] = "cms"])
               /\ (ev.occ[i][1] = "cms" => i > 1 /\ ev.occ[i - 1] = [ev.occ[i] EXCEPT ![1] = "sense"]))
 
+(***************************************************************************)
+(* C12 on the floor: the maintainer serving processors of real lines       *)
+(* (orders from scripts and from the monitoring system)                    *)
+(***************************************************************************)
+OpenOrders(S) == S.mt.queue \o S.mt.active
+ActiveOn(S, d) == \E a \in Range(S.mt.active) : a[1] = d
+C12(pre, ev, post, aux) ==
+    C("C12.FloorCapacityNeverExceeded",
+      /\ post.mt.util <= MtCap
+      /\ post.mt.util = SeqSum([i \in DOMAIN post.mt.active |-> WoCap(post.mt.active[i][1])]))
+    \cup C("C12.FloorOneOrderPerTarget",
+           \A i, j \in DOMAIN post.mt.active : i # j => post.mt.active[i][1] # post.mt.active[j][1])
+    \cup C("C12.FloorNoIdenticalOrderTwice",
+           \A i, j \in DOMAIN OpenOrders(post) : i # j => OpenOrders(post)[i] # OpenOrders(post)[j])
+    \cup C("C12.FloorAcceptedUnlessIdenticalPending",
+           \A d \in Procs : IsScript(ev, "workorder") /\ cfg.script[ev.arg].dev = d =>
+              LET o == <<d, cfg.script[ev.arg].res>> IN
+              post.mt.enter = pre.mt.enter + (IF o \in Range(OpenOrders(pre)) THEN 0 ELSE 1))
+    \cup C("C12.FloorNoStartableLeftWhenTimeAdvances",
+           Quiescent(post) => \A i \in DOMAIN post.mt.queue :
+              LET o == post.mt.queue[i] IN ~(post.mt.util + WoCap(o[1]) <= MtCap /\ ~ActiveOn(post, o[1])))
+    \cup C("C12.FloorHooksOncePerOrder",          \* start = shutdown, end = restore of the target, once each
+           /\ post.mt.start - post.mt.finish + Cardinality({e \in post.q : e.kind = "mstart"}) = Len(post.mt.active)
+           /\ post.mt.enter = post.mt.finish + Len(post.mt.active) + Len(post.mt.queue))
+
+(***************************************************************************)
+(* C18 on the floor: operating schedules that block and unblock devices    *)
+(***************************************************************************)
+RECURSIVE TtBegin(_, _)
+TtBegin(tt, k) == IF k <= 1 THEN 0 ELSE TtBegin(tt, k - 1) + tt[k - 1][1]
+TtTotal(tt) == TtBegin(tt, Len(tt) + 1)
+TtStateAt(sc, t) ==
+    LET tt == sc.tt
+        tp == IF sc.cyc /\ TtTotal(tt) > 0 THEN t % TtTotal(tt) ELSE t
+        ks == {k \in DOMAIN tt : TtBegin(tt, k) <= tp}
+        k == CHOOSE x \in ks : \A y \in ks : y <= x IN
+    tt[k][2]
+ScriptedBlock(d) == \E i \in DOMAIN cfg.script : cfg.script[i].dev = d /\ cfg.script[i].call \in {"block", "unblock"}
+OnlySched(d, i) == /\ d \in Range(cfg.scheds[i].targets) /\ ~ScriptedBlock(d)
+                   /\ \A j \in DOMAIN cfg.scheds : j # i => d \notin Range(cfg.scheds[j].targets)
+C18(pre, ev, post, aux) ==
+    C("C18.FloorStateIsTimetableWhenTimeAdvances",
+      (post.inited /\ Quiescent(post)) => \A i \in DOMAIN cfg.scheds : post.sch[i].state = TtStateAt(cfg.scheds[i], post.now))
+    \cup C("C18.FloorTargetsFollowTheState",
+           (post.inited /\ Quiescent(post)) =>
+              \A i \in DOMAIN cfg.scheds : \A d \in Devs :
+                 OnlySched(d, i) => post.dev[d].blocked = (post.sch[i].state = "off"))
+
 (* the clauses that do not need the recorded datapoints (ev.recs, ev.vh): checked on the closed      *)
 (* specification as well as on recorded runs                                                        *)
 DesignClauses(pre, ev, post, aux) ==
     C02(pre, ev, post, aux) \cup C03(pre, ev, post, aux) \cup C04(pre, ev, post, aux) \cup C05(pre, ev, post, aux)
     \cup C06(pre, ev, post, aux) \cup C08(pre, ev, post, aux) \cup C11(pre, ev, post, aux) \cup C13d(pre, ev, post, aux)
-    \cup C17(pre, ev, post, aux) \cup C19(pre, ev, post, aux)
+    \cup C17(pre, ev, post, aux) \cup C19(pre, ev, post, aux) \cup C12(pre, ev, post, aux) \cup C18(pre, ev, post, aux)
 
 ObsClauses(pre, ev, post, aux, jpost, jpre) ==
     C01(pre, ev, post, aux) \cup C15t(pre, ev, post, aux) \cup C08(pre, ev, post, aux) \cup C17(pre, ev, post, aux) \cup
     C02(pre, ev, post, aux) \cup C03(pre, ev, post, aux) \cup C04(pre, ev, post, aux) \cup C05(pre, ev, post, aux)
     \cup C06(pre, ev, post, aux) \cup C11(pre, ev, post, aux) \cup C13(pre, ev, post, aux) \cup C15(pre, ev, post, aux)
-    \cup C16(pre, ev, post, aux, jpost) \cup C19(pre, ev, post, aux)
+    \cup C16(pre, ev, post, aux, jpost) \cup C19(pre, ev, post, aux) \cup C12(pre, ev, post, aux) \cup C18(pre, ev, post, aux)
 =============================================================================
